@@ -299,11 +299,12 @@ def apply_numberized_to_eff(case):
         rec(e)
 
 
-def choose_kwargs(rng, case, extra_p=0.15):
-    """Minimal keyword sizes for S's propagation solver, sometimes plus redundant consistent ones."""
+def choose_kwargs(rng, case, extra_p=0.15, unknown=(), start=None, assign=True):
+    """Minimal keyword sizes for S's propagation solver, sometimes plus redundant consistent ones.
+    `unknown`: input positions whose shape gives no constraint (tensor factories)."""
     exprs = list(case.inputs) + list(case.outputs or [])
-    shapes = list(case.in_shapes) + [None] * len(case.outputs or [])
-    kwargs = {}
+    shapes = [None if i in unknown else s for i, s in enumerate(case.in_shapes)] + [None] * len(case.outputs or [])
+    kwargs = dict(start or {})
     names = []
     for e in exprs:
         for n in walk(e):
@@ -358,7 +359,9 @@ def choose_kwargs(rng, case, extra_p=0.15):
         if n not in kwargs and rng.random() < extra_p and len(case.var_sizes.get(n, [])) > 0:
             kwargs[n] = kwval(n)
             case.feats.add("kw-redundant")
-    case.kwargs = kwargs
+    if assign:
+        case.kwargs = kwargs
+    return kwargs
 
 
 # ------------------------------------------------------------------ data
